@@ -10,7 +10,10 @@ cd /verif
 if [ "$1" = "-h" ]; then
   VERIF_REPO=$EV timeout 1500 ./bin/symgo run -harness "$2" 2>&1 | grep -vE "^loaded in" | cut -c1-300 | tail -${3:-25}
 else
-  VERIF_REPO=$EV VERIF_DIR_EVID=1 timeout 1500 ./bin/symgo check $1 ${2:-quick} 2>&1 | grep -E "^(VIOLATION|exit|INCONCLUSIVE|KNOWN|  detail)" | cut -c1-300 | head -8
-  echo "exit ${PIPESTATUS[0]}"
+  VERIF_REPO=$EV VERIF_DIR_EVID=1 timeout 1500 ./bin/symgo check $1 ${2:-quick} > /tmp/recheck_$$.out 2>&1
+  rc=$?   # (no pipe on the check itself: a reader that stops early would kill it with SIGPIPE)
+  grep -E "^(VIOLATION|exit|INCONCLUSIVE|KNOWN|  detail)" /tmp/recheck_$$.out | cut -c1-300 | head -8
+  rm -f /tmp/recheck_$$.out
+  echo "exit $rc"
 fi
 git -C /repo worktree remove --force $EV
